@@ -28,6 +28,11 @@ OkWord(a) == a[1]           \* "ok" / "fail" of a tagged answer
 ExAuthorize(ev, op) ==
   /\ AnsEq(ev.ffi, FrontAuthorize(op[2], op[3], op[4], op[5]))
   /\ AnsEq(ev.api, FrontAuthorizeApi(op[2], op[3], op[4], op[5]))
+  \* the partial-authorization entry point, given the same fully concrete call: whenever it answers and the
+  \* specification has an answer, it is that decision (no unknowns => never undecided).  Its failure domain is
+  \* observed, not demanded.
+  /\ LET exp == FrontAuthorize(op[2], op[3], op[4], op[5])
+     IN ("partial" \in DOMAIN ev /\ ev.partial[1] = "ok" /\ exp[1] = "ok") => ev.partial[2] = exp[2].decision
 ExValidate(ev, op) ==
   /\ ValEq(ev.ffi, FrontValidate(op[2], op[3], op[4]))
   /\ ValEq(ev.api, FrontValidateApi(op[2], op[3], op[4]))
